@@ -24,6 +24,9 @@ type c17Case struct {
 	// CtxMS > 0: the dialling calls get a caller context whose own deadline is that far away (much
 	// later than the configured timeout, which must still bound the call).
 	CtxMS int `json:"ctx_ms,omitempty"`
+	// Then: after the timed call has returned, the caller tries again on the same Client ("send" or
+	// "reset"); that call is bounded as well (the server is still silent, or the connection is gone).
+	Then string `json:"then,omitempty"`
 }
 
 type c17Outcome struct {
@@ -33,6 +36,9 @@ type c17Outcome struct {
 	reached  bool // the stall point was actually reached
 	setupErr error
 	panicked interface{}
+	// second act (Then)
+	thenDone    bool
+	thenBlocked bool
 }
 
 func c17Bound(timeoutMS int) time.Duration {
@@ -106,6 +112,23 @@ func c17Exec(c *c17Case) c17Outcome {
 	out.elapsed = r.Elapsed
 	out.err = r.Err
 	out.panicked = r.Panic
+	if c.Then != "" && out.returned && out.err != nil && out.panicked == nil {
+		// second act: the retry after a call that ran into the timeout
+		r2 := watchdog(bound, d, func() error {
+			if c.Then == "reset" {
+				return cl.Reset()
+			}
+			return cl.Send(mk())
+		})
+		out.thenDone = true
+		if r2.TimedOut {
+			out.returned = false
+			out.thenBlocked = true
+		}
+		if r2.Panic != nil {
+			out.panicked = r2.Panic
+		}
+	}
 	for _, s := range d.Sessions {
 		if s.Stalled {
 			out.reached = true
@@ -129,12 +152,18 @@ func c17Run(c c17Case) []*core.Violation {
 		rec.Class("stall-point-not-reached")
 		return nil
 	}
-	fp := core.Join(c.Call, c.StallStep, c.Cfg.TLS, c.Cfg.Auth, c.Cfg.TimeoutMS, c.Cfg.NoNoop, c.Cfg.Fallback, c.CtxMS)
+	fp := core.Join(c.Call, c.StallStep, c.Cfg.TLS, c.Cfg.Auth, c.Cfg.TimeoutMS, c.Cfg.NoNoop, c.Cfg.Fallback, c.CtxMS, c.Then)
+	if out.thenDone {
+		rec.AddExtra("retries_after_a_timed_out_call", 1)
+	}
 	rec.NonTrivial(fp)
 	rec.Class("call:" + c.Call)
 	rec.Sample(c.Call+"/"+c.StallStep, map[string]interface{}{"call": c.Call, "stall_step": c.StallStep, "tls": c.Cfg.TLS, "auth": c.Cfg.Auth, "timeout_ms": c.Cfg.TimeoutMS, "returned_after_ms": out.elapsed.Milliseconds(), "error": fmt.Sprint(out.err)})
 	bound := c17Bound(c.Cfg.TimeoutMS)
 	miss := func(o c17Outcome) string {
+		if o.thenBlocked {
+			return fmt.Sprintf("%s returned its time-out error, but the following %s on the same Client did not return within %v (configured timeout %d ms; server silent since %s)", c.Call, c.Then, bound, c.Cfg.TimeoutMS, c.StallStep)
+		}
 		if !o.returned {
 			return fmt.Sprintf("%s did not return within %v (configured timeout %d ms) with the server silent at %s", c.Call, bound, c.Cfg.TimeoutMS, c.StallStep)
 		}
@@ -199,6 +228,17 @@ func c17Configs() []c17Case {
 			}
 		}
 	}
+	// the retry after a time-out: a second call on the same Client is bounded too
+	for _, st := range []string{"noop#1", "mail#1", "rcpt#1.1", "data#1", "eod#1", "noop#2", "rset#1"} {
+		for _, then := range []string{"send", "reset"} {
+			cfg := smtpCfg{TLS: "none"}
+			out = append(out, c17Case{Cfg: cfg, Caps: []string{"8BITMIME"}, StallStep: st, Call: "send", Then: then})
+		}
+	}
+	for _, st := range []string{"noop#1", "rset#1"} {
+		out = append(out, c17Case{Cfg: smtpCfg{TLS: "none"}, Caps: []string{"8BITMIME"}, StallStep: st, Call: "reset", Then: "send"})
+		out = append(out, c17Case{Cfg: smtpCfg{TLS: "mandatory"}, Caps: []string{"STARTTLS", "8BITMIME"}, StallStep: st, Call: "reset", Then: "reset"})
+	}
 	// WithoutNoop: the connection check sends no NOOP, the deadline must be armed all the same
 	for _, st := range []string{"mail#1", "rcpt#1.1", "data#1", "content", "eod#1", "rset#1"} {
 		cfg := smtpCfg{TLS: "none", NoNoop: true}
@@ -236,7 +276,7 @@ func c17Configs() []c17Case {
 func c17Describe() {
 	rec := core.Rec("C17")
 	rec.Rule = "enumerated stall points: the reference server goes silent (connection held open) at {greeting, EHLO reply, STARTTLS reply, during the TLS handshake, second EHLO, the AUTH command, the first and second challenge of the exchange, NOOP, MAIL, first and second RCPT, DATA, inside the message content (server stops reading; bounded in-memory buffer so the writer blocks), end-of-data reply, the NOOP/RSET after delivery, QUIT} " +
-		"x TLS policy {none, mandatory} x auth {none, PLAIN, LOGIN, CRAM-MD5, SCRAM-SHA-256} x call {DialWithContext, DialAndSend, Send, Reset}, plus the same stall points on a connection obtained through the fallback port (primary dial refused), with WithoutNoop, and with a caller context whose own deadline is 60 s away, x configured timeout (100 ms in quick; 100/200/400 ms in thorough). " +
+		"x TLS policy {none, mandatory} x auth {none, PLAIN, LOGIN, CRAM-MD5, SCRAM-SHA-256} x call {DialWithContext, DialAndSend, Send, Reset}, plus the same stall points on a connection obtained through the fallback port (primary dial refused), with WithoutNoop, with a caller context whose own deadline is 60 s away, and followed by a RETRY on the same Client (Send or Reset after the call that timed out at NOOP/MAIL/RCPT/DATA/end-of-data/RSET; the retry is bounded as well), x configured timeout (100 ms in quick; 100/200/400 ms in thorough). " +
 		"Oracle: the call returns a non-nil error within max(20 x timeout, 15 s); a miss is re-run twice in isolation and only reported if it repeats. Non-trivial: every case whose stall point is actually reached; distinct by (call, stall point, policy, auth, timeout)."
 	rec.Assumptions = []string{"real clocks: the bound is >= 20x the configured timeout and at least 15 s (closing a TLS connection to a peer that no longer reads may itself take 5 s in crypto/tls)", "in-memory transport through WithDialContextFunc (deadline support implemented by the harness connection)", "boundedness is shown only for the enumerated stall points"}
 }
